@@ -27,6 +27,7 @@ RULE = (
     "yielded fields, same multiset of writes (time replies compared without the clock value), same registry snapshot. Enumerated part: every internal and stream type of the older table x a payload pool x both ack flags on a fixed registry, for all pairs. Non-trivial = the "
     "history touches >= 3 distinct internal types, or a command was parked for a sleeping node; distinct = distinct case JSON."
     ' Round 5: cases run under generated time zones and compare the time replies of both versions.'
+    ' Round 7: fractional report payloads; sequences of the same report (growing, shrinking, repeating) with commands parked in between.'
 )
 ASSUMPTIONS = [
     "gateway.protocol_version = v (public setter) pins each gateway",
@@ -59,7 +60,13 @@ def _ops(old: str, new: str):
     internal_types = [t for t in range(0, INTERNAL_MAX[old] + 1) if t not in excluded]
     itype = st.one_of(st.sampled_from(internal_types), st.sampled_from([t for t in (0, 1, 3, 6, 11, 12, 13, 14, 21, 22) if t in internal_types]))
     ipayload = st.sampled_from(("", "1", "55", "100", "name", "7", "abc", "150", "55.5", "99.7", "100.6", "-0.6", "0.5", "2.5", "3", "1000", "12"))
-    send = st.builds(lambda n, c, t, v, b: ["send", [n, c, 1, 0, t, v], b], node, child, st.sampled_from((0, 2)), value, st.sampled_from((None, None, False)))
+    send = st.one_of(
+        st.builds(lambda n, c, t, v, b: ["send", [n, c, 1, 0, t, v], b], node, child, st.sampled_from((0, 2)), value, st.sampled_from((None, None, False))),
+        st.builds(lambda n, c, t, v, b: ["send", [n, c, 1, 0, t, v], b], node, child, st.sampled_from((0, 2)), value, st.sampled_from((None, None, False))),
+        # the other commands an application sends: value requests, internal commands (reboot, heartbeat request, presentation request)
+        st.builds(lambda n, c, t, a, b: ["send", [n, c, 2, a, t, ""], b], node, child, st.sampled_from((0, 2)), st.sampled_from((0, 1)), st.sampled_from((None, None, False, True))),
+        st.builds(lambda n, t, b: ["send", [n, 255, 3, 0, t, ""], b], node, st.sampled_from([t for t in (13, 18, 19, 6) if t <= INTERNAL_MAX[old]] or [13]), st.sampled_from((None, None, False))),
+    )
     lines = st.one_of(
         st.builds(lambda n, t, v: f"{n};255;0;0;{t};{v}\n", node, ptype, st.sampled_from(("2.0", "1.4", "2.2.0"))),
         st.builds(lambda n, c, t, p: f"{n};{c};0;0;{t};{p}\n", node, child, ptype, value),
@@ -124,6 +131,16 @@ def enumerate_cases(tier: str):
                 yield {"pair": [old, new], "metric": bool(ack), "registry": ENUM_REGISTRY,
                        "ops": [op for line in lines for op in (["rx", line],)] + [["send", [2, 0, 1, 0, 0, "9"], None], ["rx", "1;0;2;0;0;\n"], ["rx", "1;0;1;0;0;5\n"]]}
     yield from _type_sweep()
+    # what an application sends to a node that is asleep / awake / unknown, every command kind, then the node wakes
+    for old, new in PAIRS:
+        wakes = [t for t in (22, 32) if t <= INTERNAL_MAX[old] and not (t == 22 and new == "2.2")]
+        for wake_t in wakes or [None]:
+            ops = ([["rx", f"2;255;3;0;{wake_t};5\n"]] if wake_t else [])
+            for fields in ([2, 0, 2, 0, 0, ""], [2, 0, 2, 1, 0, ""], [2, 255, 3, 0, 13, ""], [2, 255, 3, 0, 18, ""] if INTERNAL_MAX[old] >= 18 else [2, 255, 3, 0, 6, ""], [2, 0, 1, 0, 0, "7"], [1, 0, 2, 0, 0, ""], [9, 0, 2, 0, 0, ""]):
+                for buffer in (None, False):
+                    ops.append(["send", fields, buffer])
+            ops += ([["rx", f"2;255;3;0;{wake_t};6\n"]] if wake_t else []) + [["rx", "2;0;2;0;0;\n"]]
+            yield {"pair": [old, new], "metric": True, "registry": ENUM_REGISTRY, "ops": ops}
     # sequences of the same report with changing values (growing, shrinking, repeating), with a command parked in between
     for old, new in PAIRS:
         excluded = {2} | ({22} if new == "2.2" else set())
@@ -270,7 +287,7 @@ def _run_case(case: dict) -> Outcome:
                         observed["assigned_id"] = int(next(iter(ids))) if len(ids) == 1 else None
                     shadow.commit(pred, outcome, observed)
                 shadow.nodes = {k: {kk: vv for kk, vv in v.items()} for k, v in s_old.items()}
-            elif shadow is not None:
+            elif shadow is not None and op[1][2] == 1:
                 shadow.send_set(op[1], True if op[2] is None else op[2])
         return None
 
